@@ -104,7 +104,10 @@ def random_ops(rng, n, bad=True):
         elif op in ('getd', 'popd'):
             o.update(k=k, d=dd.DEFAULT)
         elif op in ('popkeys', 'popkeysd'):
-            o.update(ks=sorted(rng.sample(range(1, dd.NK + 1), rng.randint(1, 2))), d=dd.DEFAULT)
+            ks = rng.sample(range(1, dd.NK + 1), rng.randint(1, 2))
+            if rng.random() < 0.3:
+                ks.append(ks[0])          # the same key listed twice
+            o.update(ks=ks, d=dd.DEFAULT)
         elif op in ('update', 'updatekw'):
             k2 = rng.choice([x for x in range(1, dd.NK + 1) if x != k])
             o.update(k=k, v=10 * k + rng.randint(1, 3), k2=k2, v2=10 * k2 + rng.randint(1, 3))
